@@ -11,7 +11,7 @@ from vcommon import *
 PROP = "C12"
 HERE = os.path.dirname(os.path.abspath(__file__))
 TZS = ["UTC", "Asia/Tokyo", "America/Los_Angeles", "Pacific/Kiritimati", "XYZ-14", "ABC+11:30", "Europe/London"]
-KNOBS = ["clock", "tz", "mtime", "heap", "pid", "tmpname", "stack"]
+KNOBS = ["clock", "tz", "mtime", "heap", "pid", "tmpname", "stack", "envvars"]
 TIMEOUT = 10
 TIME_MACROS = re.compile(r"__DATE__|__TIME__|__TIMESTAMP__")
 
@@ -71,11 +71,14 @@ def gen_env(r):
     return {"clock": [r.range(0, 4260000000), r.pick([0, 0, 1, 59, 3600, 86399, 40000000])],
             "tz": r.pick(TZS), "mtime": r.range(1, 4000000000), "heap": r.u64(), "pid": r.range(2, 4000000),
             "tmpname": "".join(r.pick("abcdefghijklmnopqrstuvwxyzABCDEFGHIJKLMNOPQRSTUVWXYZ0123456789") for _ in range(6)),
-            "stack": r.range(0, 4000)}
+            "stack": r.range(0, 4000),
+            "envvars": [r.pick(["/root", "/home/u%d" % r.below(100), "/nonexistent"]), r.pick(["root", "builder", "u%d" % r.below(100)]),
+                        r.pick(["C", "C.UTF-8", "en_US.UTF-8", "POSIX"]), str(r.range(20, 300)), r.pick(["dumb", "xterm-256color", "vt100"])]}
 
 
 def env_vars(e, sdir, stats):
-    v = {"PATH": "/usr/bin:/bin", "LANG": "C", "HOME": "/nonexistent", "LD_PRELOAD": os.path.join(sdir, "libenvsim.so"),
+    ev = e.get("envvars") or ["/nonexistent", "root", "C", "80", "dumb"]
+    v = {"PATH": "/usr/bin:/bin", "LANG": ev[2], "LC_ALL": ev[2], "HOME": ev[0], "USER": ev[1], "LOGNAME": ev[1], "COLUMNS": ev[3], "TERM": ev[4], "LD_PRELOAD": os.path.join(sdir, "libenvsim.so"),
          "ENVSIM_SEED": str(e["heap"]), "ENVSIM_EPOCH": str(e["clock"][0]), "ENVSIM_TICK": str(e["clock"][1]), "TZ": e["tz"],
          "ENVSIM_PID": str(e["pid"]), "ENVSIM_TMPTAG": e["tmpname"], "ENVSIM_PAD": "x" * e["stack"]}
     if stats:
@@ -599,7 +602,7 @@ def main(argv):
         "by_first_option": by_opt,
         "determinism": {"cases_run_twice": stats.get("determinism_pairs", 0), "mismatches": stats.get("determinism_mismatches", 0)},
         "components": {"real": ["chibicc stage 1 (gcc-built), stage 2 (built by stage 1), stage 3 (built by stage 2) from the working tree", "GNU as for -c"],
-                       "simulated": ["time()/clock_gettime()/gettimeofday()", "TZ", "input mtime", "malloc/calloc/realloc/free (arena base, padding, junk fill, poison on free, realloc always moves)",
+                       "simulated": ["time()/clock_gettime()/gettimeofday()/clock()", "TZ", "HOME/USER/LANG/LC_ALL/COLUMNS/TERM", "getppid()", "input mtime", "malloc/calloc/realloc/free (arena base, padding, junk fill, poison on free, realloc always moves)",
                                      "getpid()", "mkstemp names", "stack offset (environment padding)", "ASLR switched off (setarch -R) so layout is a function of the seed"]},
         "exhaustive": False,
     }
